@@ -483,6 +483,64 @@ def rules(ctx: Ctx) -> None:
 
     _common.flag_rule(ctx, _common.runner(prog), "R10.7")
 
+    # ---- R10.11 an attribute that a method establishes (it is not set by the constructor or at class level) is established on every path
+    # before it is read: a branch that only warns and falls through leaves the object without it, and the next read is an AttributeError
+    R_ = _common.runner(prog)
+    n_est = 0
+    for c in prog.classes.values():
+        if not c.mod.name.startswith("sqllineage."):
+            continue
+        init_like = [m for nm, m in c.methods.items() if nm in ("__init__", "__new__", "__post_init__")]
+        preset = set(c.consts)
+        for k in [c] + [b for b in prog.classes.values() if b is not c and prog.is_subclass(c, b)]:
+            preset |= set(k.consts)
+            for m in k.methods.values():
+                if m.name in ("__init__", "__new__", "__post_init__"):
+                    preset |= {n.attr for n in prog.walk_fn(m) if isinstance(n, ast.Attribute) and isinstance(n.ctx, ast.Store) and isinstance(n.value, ast.Name) and n.value.id == "self"}
+        for m in c.methods.values():
+            if m in init_like or not m.params() or m.params()[0] != "self":
+                continue
+            stores: dict[str, list[ast.AST]] = {}
+            for n in prog.walk_fn(m):
+                # (the evaluation routine re-establishes the object's state on every run: there, a value left over from the constructor is as wrong
+                # as no value - the statement list would stay empty and nothing be analysed)
+                if isinstance(n, ast.Attribute) and isinstance(n.ctx, ast.Store) and isinstance(n.value, ast.Name) and n.value.id == "self" and (n.attr not in preset or m is R_.evaluator):
+                    stores.setdefault(n.attr, []).append(n)
+            if not stores:
+                continue
+            cfg_ = flow(prog, m).cfg
+            for attr, sts in sorted(stores.items()):
+                # set by another method as well: which one runs first is not visible here
+                if any(o is not m and o not in init_like and any(isinstance(n, ast.Attribute) and isinstance(n.ctx, ast.Store) and n.attr == attr and isinstance(n.value, ast.Name) and n.value.id == "self" for n in prog.walk_fn(o))
+                       for o in c.methods.values()):
+                    continue
+                snodes = {cfg_.node_for(n) for n in sts}
+                if None in snodes:
+                    continue
+                n_est += 1
+                ctx.touched(m)
+                for n in prog.walk_fn(m):
+                    if isinstance(n, ast.Attribute) and isinstance(n.ctx, ast.Load) and n.attr == attr and isinstance(n.value, ast.Name) and n.value.id == "self":
+                        ln = cfg_.node_for(n)
+                        if ln is None:
+                            continue
+                        unset = ln not in snodes and cfg_.reach(cfg_.entry, ln, avoid=snodes)
+                        ctx.ob("R10.11", f"established-before-read:{m.owner}:{attr}", not unset, loc(m.mod, n),
+                               f"`self.{attr}` is read here; " + ("some path from the start of the method reaches this read without assigning it" if unset else "every path to this read assigns it first"),
+                               trivial=not unset)
+                if m is R_.evaluator:
+                    unset = cfg_.reach(cfg_.entry, cfg_.exit, avoid=snodes)
+                    ctx.ob("R10.11", f"established-on-return:{m.owner}:{attr}", not unset, m.loc(),
+                           f"the evaluation routine returns normally only after assigning `self.{attr}` (the accessors read it afterwards)" if not unset else
+                           f"some path through the evaluation routine returns normally without assigning `self.{attr}`: the accessors then fail with AttributeError or see what the constructor left there")
+    ctx.floor("attributes established by a method other than the constructor", n_est, 2)
+
     # ---- R10.10 no state shared between analyses can change what a text is reported as (= R12.2: e.g. a parse cache keyed by text only and
     # shared by analyzers of different dialects answers "valid" for text the current dialect cannot parse)
     _common.import_rules(ctx, "C12", {"R12.2": "R10.10"})
+
+    # ---- R10.12 (= R12.1, exit does not swallow; = R05.3, analyzer state): an exception raised while session metadata is registered must
+    # leave the session's `with` block, and nothing written while one statement is analysed is carried into the next (objects that keep
+    # per-query lists then fail inside networkx on the second statement)
+    _common.import_rules(ctx, "C12", {"R12.1": "R10.12"}, key_filter=lambda o: "swallow" in o.key)
+    _common.import_rules(ctx, "C05", {"R05.3": "R10.12"}, key_filter=lambda o: o.key.startswith(("analyzer-state", "per-query-object")))
